@@ -161,7 +161,7 @@ TypeName(c, v) ==
 (***************************************************************************)
 StrictKinds == {"bin", "neg", "not", "list", "tuple", "map", "range", "idx", "asg", "opasg", "iasg",
                 "iopasg", "istr", "core", "mcall", "app", "throw", "dot", "dasg", "dopasg", "masg",
-                "yield", "spread", "let"}
+                "yield", "spread", "let", "mlet"}
 
 Subs(node) ==
     CASE node.k = "bin" -> <<node.a, node.b>>
@@ -170,7 +170,7 @@ Subs(node) ==
       [] node.k = "map" -> node.vs \o node.mvs
       [] node.k = "range" -> <<node.a, node.b>>
       [] node.k = "idx" -> <<node.c, node.i>>
-      [] node.k \in {"asg", "opasg", "throw", "masg", "yield", "spread", "let"} -> <<node.e>>
+      [] node.k \in {"asg", "opasg", "throw", "masg", "yield", "spread", "let", "mlet"} -> <<node.e>>
       [] node.k \in {"iasg", "iopasg"} -> <<node.c, node.i, node.e>>
       [] node.k = "dot" -> <<node.c>>
       [] node.k \in {"dasg", "dopasg"} -> <<node.c, node.e>>
@@ -998,6 +998,18 @@ Apply(c, node, vs) ==
              IF t = "u" THEN Unspec(c, "let-type-unspec")
              ELSE IF t = "n" THEN RtErr(c, "let-type")
              ELSE Rt([c EXCEPT !.env = Bind(@, node.n, vs[1])], vs[1]))
+      [] node.k = "mlet" ->
+            \* let a: T, _: U, c = e   (guide: Type Checks / let with several targets; Value Unpacking).  Each target
+            \* takes the next element (null when exhausted), ignored targets included; hinted targets are checked
+            (LET el == ElemsOf(c, vs[1]) IN
+             IF ~el.ok THEN Unspec(c, "unpack-kind")
+             ELSE LET n    == Len(node.ns)
+                      val(i) == IF i <= Len(el.s) THEN el.s[i] ELSE VNull
+                      m(i)   == IF node.tys[i] = "" \/ ~c.checks THEN "y" ELSE TypeMatches(c, val(i), node.tys[i])
+                      Bad    == {i \in 1 .. n : m(i) # "y"}
+                  IN IF Bad = {} THEN Rt([c EXCEPT !.env = BindSeq(@, node.ns, el.s, 1)], VBot)
+                     ELSE LET b == CHOOSE i \in Bad : \A j \in Bad : i <= j IN
+                          IF m(b) = "u" THEN Unspec(c, "let-type-unspec") ELSE RtErr(c, "let-type"))
       [] node.k = "spread" ->
             \* guide: Packed Call Arguments -- replaced by the output of iterating over the argument
             (LET el == ElemsOf(c, vs[1]) IN
